@@ -96,7 +96,7 @@ CanonEmit(ck, m) ==
 \* ------------------------------------------------------------------ reading tokens
 \* Coordinate tokens are decoded by table lookup (TLC cannot look inside a string): all strings
 \* "(i,j)" / "i" for indices below CoordBound are built once.
-CoordBound == 24
+CoordBound == 50
 Idx == 0..(CoordBound - 1)
 NumSeq == [k \in 1..CoordBound |-> ToString(k - 1)]
 NumOf == [s \in {NumSeq[k] : k \in 1..CoordBound} |-> (CHOOSE k \in 1..CoordBound : NumSeq[k] = s) - 1]
